@@ -76,8 +76,8 @@ package weighted_sum
 //@   requires [params] typeis(dmp.MethodParameters, weightedSumParams) && dmp.MethodParameters.(weightedSumParams).weightedCriteria != nil
 //@   ensures [one_entry_each] result != nil && len(*result) == len(dmp.ConsideredAlternatives)
 //@   ensures [all_considered_present] forall j int :: 0 <= j && j < len(dmp.ConsideredAlternatives) ==> exists i int :: 0 <= i && i < len(*result) && (*result)[i].Alternative == dmp.ConsideredAlternatives[j]
-//@   ensures [C04 ordered_by_value_then_id] forall i int, j int :: 0 <= i && i < j && j < len(*result) ==> !model.ordered((*result)[j].AlternativeResult, (*result)[i].AlternativeResult)
-//@   ensures [C01 no_self_no_duplicates] forall i int, m int :: 0 <= i && i < len(*result) && 0 <= m && m < len((*result)[i].BetterThanOrSameAs) ==>
+//@   ensures [ordered_by_value_then_id] forall i int, j int :: 0 <= i && i < j && j < len(*result) ==> !model.ordered((*result)[j].AlternativeResult, (*result)[i].AlternativeResult)
+//@   ensures [no_self_no_duplicates] forall i int, m int :: 0 <= i && i < len(*result) && 0 <= m && m < len((*result)[i].BetterThanOrSameAs) ==>
 //@             (*result)[i].BetterThanOrSameAs[m] != (*result)[i].Alternative.Id
 //@             && (forall q int :: m < q && q < len((*result)[i].BetterThanOrSameAs) ==> (*result)[i].BetterThanOrSameAs[m] != (*result)[i].BetterThanOrSameAs[q])
 
@@ -107,6 +107,7 @@ package weighted_sum
 //@ wire WeightedSumAddedCriterion
 //@   property C01 C07 C20
 //@   json Weights=weights
+//@   gotypes Weights=model.Weights
 
 // ---- registered names (what a request must say to select this object; what error messages list)
 //@ func (*WeightedSumBiasListener).Identifier
